@@ -63,10 +63,13 @@ GEN = os.path.join(LEAN, "RbV", "Gen")
 REPORT = []  # one dict per generated file (for --json)
 
 
-def fail(msg):
+def fail(msg, hard=False):
+    """`hard`: the text was read and contradicts an obligation (inconsistent statements, a theorem over regenerated constants
+    fails) -> exit code 2.  Otherwise: the extractor can no longer read what it needs from the text (renamed, restructured,
+    outside the translated subset) -> exit code 1, reported by main() as *unavailable*, not as a broken obligation."""
     # ./check keeps the last 400 characters of the output as the problem text: the message goes last and fits
     print("gen_tables: " + (msg if len(msg) <= 380 else msg[:377] + "..."))
-    sys.exit(1)
+    sys.exit(2 if hard else 1)
 
 
 def write_if_changed(path, text):
@@ -642,7 +645,7 @@ def documented_max_cells(raw, rel):
     if not vals:
         return None, None
     if len(set(vals)) > 1:
-        fail("%s: the documentation states different values for MAX_CELLS: %s" % (rel, ", ".join(map(str, vals))))
+        fail("%s: the documentation states different values for MAX_CELLS: %s" % (rel, ", ".join(map(str, vals))), hard=True)
     return vals[0], " | ".join(texts)
 
 
@@ -683,7 +686,7 @@ def gen_tbcodes(repo):
     if mask1 is None or mask2 is None:
         fail("%s: the field mask of set_bits/get_bits is no longer an integer literal" % rel)
     if mask1 != mask2:
-        fail("%s: set_bits clears mask %d but get_bits reads mask %d" % (rel, mask1, mask2))
+        fail("%s: set_bits clears mask %d but get_bits reads mask %d" % (rel, mask1, mask2), hard=True)
     # which position each accessor pair uses
     for fld, p in (("i", "I_POS"), ("d", "D_POS"), ("s", "S_POS")):
         for acc, rx in (("set_%s_bits" % fld, r"\bfn\s+set_%s_bits\s*\([^)]*\)\s*\{[^}]*self\s*\.\s*set_bits\s*\(\s*%s\s*,\s*value\s*\)" % (fld, p)),
@@ -933,7 +936,7 @@ def verify_modules(mods):
                     names.append(d)
             if not names:
                 names = [l for l in p.stdout.splitlines() if "error" in l][:6]
-            fail("theorems over the generated constants no longer check: " + " | ".join(names[:6]))
+            fail("theorems over the generated constants no longer check: " + " | ".join(names[:6]), hard=True)
         print("gen_tables: %s checked" % " ".join(mods))
     return run
 
@@ -1059,6 +1062,11 @@ SOFT_PROBS = soft_modules(["RbV.Thm.GenSrcProbsModel"], "the real-number model o
 EXTRACTORS["C15"] = EXTRACTORS["C15"] + [GEN_SRC["SrcProbs"], GEN_SRC["SrcFastExp"], SOFT_PROBS]
 
 
+# generated module written by each constant/table extractor (for the theorems not counted when it is unavailable)
+EXTRACTOR_MODULE = {"gen_complement": "Gen.Complement", "gen_dna2int": "Gen.Dna2Int", "gen_scales": "Gen.Scales",
+                    "gen_limits": "Gen.Limits", "gen_tbcodes": "Gen.TbCodes", "gen_occ": "Gen.Occ", "gen_saiswidth": "Gen.SaisWidth"}
+
+
 def main():
     ap = argparse.ArgumentParser()
     ap.add_argument("--repo", default=os.environ.get("VERIF_REPO", "/repo"))
@@ -1091,10 +1099,13 @@ def main():
         except SystemExit as e:
             if e.code in (0, None):
                 continue
-            if fn.__name__.startswith("gen_src_"):
+            if e.code == 2:
+                hard.append(fn.__name__)
+            elif fn.__name__.startswith("gen_src_"):
                 unavailable.append(fn.__name__[len("gen_src_"):])
             else:
-                hard.append(fn.__name__)
+                # constants / tables / use-site statements that can no longer be read from the text: same rule
+                unavailable.append(EXTRACTOR_MODULE.get(fn.__name__, fn.__name__))
     if a.json:
         print("gen_tables-json: " + json.dumps(REPORT, sort_keys=True))
     if unavailable:
